@@ -278,7 +278,7 @@ func stage2(k *chainkit.Kit, dir, bf string, res *ChildRes, write func(), all bo
 			return
 		}
 		n++
-		dn := fmt.Sprintf("%03d", n)
+		dn := fmt.Sprintf("%s#%d", strings.NewReplacer(":", "_", ".", "_").Replace(name), cnt[name]) // same name in both capture modes
 		if copyTree(dir, out+dn+"/") == nil {
 			res.Second = append(res.Second, SecondCap{Name: dn, Point: name, Idx: cnt[name]})
 		}
